@@ -288,3 +288,86 @@ Proof.
     + exfalso. destruct (_ && take_rot _ _); [|destruct Hp].
       apply anirot_parids_elem in Hp. destruct (own_icov _ _ _ Hown) as [_ He]. rewrite Hp in He. discriminate.
 Qed.
+
+(* ------------------------------------------------------------------ constant-sill constraint *)
+Lemma resize_length {A} n (v : A) l : length (resize n v l) = n.
+Proof. unfold resize. rewrite app_length, firstn_length, repeat_length. lia. Qed.
+
+Lemma nth_repeat_lt {A} (v : A) m : forall i d, (i < m)%nat -> nth i (repeat v m) d = v.
+Proof. induction m as [|m IH]; intros i d H; [lia|]. destruct i; cbn; [reflexivity | apply IH; lia]. Qed.
+
+Lemma resize_nth {A} n (v : A) l k d : (k < n)%nat ->
+  nth k (resize n v l) d = if (k <? length l)%nat then nth k l d else v.
+Proof.
+  intro Hk. unfold resize. destruct (Nat.ltb_spec k (length l)) as [L|G].
+  - rewrite app_nth1 by (rewrite firstn_length; lia). revert k Hk L. revert n.
+    induction l as [|x r IH]; intros n k Hk L; [cbn in L; lia|]. destruct n; [lia|]. destruct k; cbn; [reflexivity|].
+    apply IH; cbn in L; lia.
+  - rewrite app_nth2 by (rewrite firstn_length; lia). rewrite firstn_length.
+    replace (Nat.min n (length l)) with (length l) by lia. apply nth_repeat_lt. lia.
+Qed.
+
+(* C17_constant_sill_expand: after the expansion the imposed total of variable v is the user's entry when the user gave one
+   (v < length of the vector), the scalar otherwise; exactly nvar entries *)
+Lemma expand_spec nvar c v :
+  (v < nvar)%nat ->
+  length (cs_sills (expand_constant_sill nvar c)) = nvar /\
+  imposed_total nvar c v = if (v <? length (cs_sills c))%nat then nth v (cs_sills c) None else cs_value c.
+Proof.
+  intro Hv. unfold imposed_total, expand_constant_sill. cbn [cs_sills]. split; [apply resize_length | apply resize_nth; exact Hv].
+Qed.
+
+(* expanding an already expanded object changes nothing; with another number of variables the entries kept are the same *)
+Lemma resize_idem {A} n (v : A) l : resize n v (resize n v l) = resize n v l.
+Proof.
+  unfold resize at 1. rewrite resize_length. rewrite Nat.sub_diag. cbn [repeat]. rewrite app_nil_r.
+  rewrite <- (resize_length n v l) at 1. apply firstn_all.
+Qed.
+Lemma expand_idem nvar c : expand_constant_sill nvar (expand_constant_sill nvar c) = expand_constant_sill nvar c.
+Proof. unfold expand_constant_sill. cbn [cs_value cs_sills]. rewrite resize_idem. reflexivity. Qed.
+
+Lemma expand_twice n1 n2 c v :
+  (v < n2)%nat -> (v < n1)%nat ->
+  imposed_total n2 (expand_constant_sill n1 c) v = imposed_total n1 c v.
+Proof.
+  intros H2 H1. unfold imposed_total, expand_constant_sill. cbn [cs_value cs_sills].
+  rewrite (resize_nth n2 _ _ v None H2). rewrite resize_length.
+  assert (E : (v <? n1)%nat = true) by (apply Nat.ltb_lt; exact H1). rewrite E. reflexivity.
+Qed.
+
+(* the vector handed to the constrained Goulard is the expanded one, and only when the scalar is defined *)
+Lemma fit_cons_sill_spec nvar c l v :
+  fit_cons_sill nvar c = Some l -> (v < nvar)%nat ->
+  cs_value c <> None /\ nth v l None = imposed_total nvar c v.
+Proof.
+  unfold fit_cons_sill. destruct (cs_value c) eqn:E; [|discriminate]. intro H. injection H as <-. intros _.
+  split; [discriminate | reflexivity].
+Qed.
+
+(* the reset before the optimisation under constraints shares the imposed total equally among the structures *)
+Lemma reset_diag_total cv ncova : (0 < ncova)%nat -> inject_Z (Z.of_nat ncova) * reset_diag (Some cv) ncova == cv.
+Proof.
+  intro H. unfold reset_diag. field. intro E. assert (0 < inject_Z (Z.of_nat ncova)).
+  { unfold Qlt, inject_Z. cbn. lia. } lra.
+Qed.
+
+(* a constraint item on a sill switches Goulard off: together with a constant-sill constraint the fit is refused *)
+Lemma sill_item_and_constant_sill_refused ndim ndir zflat nvar sn o o' c :
+  alter_optvar ndim ndir zflat nvar true sn o = Some o' -> is_constraint_sill_defined c = true ->
+  constant_sill_refused o' c = true.
+Proof.
+  intros H Hc. destruct (alter_optvar_restricts _ _ _ _ _ _ _ _ H) as (_ & _ & Hg & _).
+  unfold constant_sill_refused. rewrite Hc. cbn [andb]. destruct (o_goulard o') eqn:G; [|reflexivity].
+  destruct (Hg eq_refl) as [_ F]. discriminate.
+Qed.
+Lemma sill_item_and_constant_sill_refused_vmap ndim nvar sn o o' c :
+  alter_vmap_optvar ndim nvar true sn o = Some o' -> is_constraint_sill_defined c = true ->
+  constant_sill_refused o' c = true.
+Proof.
+  intros H Hc. destruct (alter_vmap_optvar_restricts _ _ _ _ _ _ H) as (_ & _ & Hg & _).
+  unfold constant_sill_refused. rewrite Hc. cbn [andb]. destruct (o_goulard o') eqn:G; [|reflexivity].
+  destruct (Hg eq_refl) as [_ F]. discriminate.
+Qed.
+(* without constant sill nothing is refused on that account *)
+Lemma no_constant_sill_not_refused o' : constant_sill_refused o' (mkCS None []) = false.
+Proof. reflexivity. Qed.
